@@ -185,6 +185,19 @@ static Result run_case (const Case &c)
 		}
 		if (n != exp.size ()) { sf_close (g) ; return fail ("by_id_count", "'" + id + "' found " + std::to_string (n) + " of " + std::to_string (exp.size ())) ; }
 	}
+	// a by-id iteration that is abandoned half way must not restrict the next full iteration: count the chunks with a fresh full
+	// iterator, start (and drop) a by-id iterator, count again
+	{	auto count_all = [&] () { long n = 0 ; for (SF_CHUNK_ITERATOR *it = sf_get_chunk_iterator (g, nullptr) ; it && n < 100000 ; it = sf_next_chunk_iterator (it)) n ++ ; return n ; } ;
+		long before = count_all () ;
+		for (auto &id : ids)
+		{	if (lib_ids.count (id) || reserved) continue ;
+			SF_CHUNK_INFO filt ; memset (&filt, 0, sizeof (filt)) ; snprintf (filt.id, sizeof (filt.id), "%s", id.c_str ()) ; filt.id_size = (unsigned) id.size () ;
+			if (sf_get_chunk_iterator (g, &filt) == nullptr) continue ;
+			long after = count_all () ;
+			if (after != before) { sf_close (g) ; return fail ("full_iteration_after_abandoned_by_id", "full iteration visits " + std::to_string (before) + " chunks, after an abandoned iteration by id '" + id + "' it visits " + std::to_string (after)) ; }
+			break ;
+		}
+	}
 	// an id that was never set finds nothing
 	{	SF_CHUNK_INFO filt ; memset (&filt, 0, sizeof (filt)) ; strcpy (filt.id, "NoNe") ; filt.id_size = 4 ; if (!lib_ids.count ("NoNe") && sf_get_chunk_iterator (g, &filt) != nullptr) { sf_close (g) ; return fail ("iterator_for_absent_id", "") ; } }
 	// ---- audio untouched (continues where the first part stopped), equal to the twin
